@@ -251,7 +251,11 @@ def build_spec(seed: int, prop: str, tier: str) -> dict:
                 val: Any = {"X-Evolved-" + c.token(): c.token()} if what == "headers" else ({"evolved_" + c.token(): c.token()} if what == "cookies" else r.choice([0.5, 5.0, 30.0]))
                 groups.append({"mode": "evolve", "what": what, "value": val, "calls": []})
         sessions.append({"client": client, "groups": groups})
-    return {"hashseed": seed % 4, "doc": doc, "config": cfg, "sessions": sessions, "urandom_seed": seed % (2**32)}
+    spec = {"hashseed": seed % 4, "doc": doc, "config": cfg, "sessions": sessions, "urandom_seed": seed % (2**32)}
+    if r.random() < 0.15:
+        spec["doc_channel"] = {"content_type": r.choice(["application/json", "application/json; charset=utf-8", "application/json; charset=ISO-8859-1", "application/json;charset=utf-16",
+                                                       None, "text/plain; charset=us-ascii", "application/yaml", "application/octet-stream"])}
+    return spec
 
 
 # ---------------------------------------------------------------------- the world
@@ -259,7 +263,7 @@ class Pkg:
     """The generated package, imported, plus the name mapping taken from the generator's own objects
     (used only to be able to CALL the functions)."""
 
-    def __init__(self, doc: dict, cfg: dict, sandbox: str) -> None:
+    def __init__(self, doc: dict, cfg: dict, sandbox: str, channel: dict | None = None) -> None:
         from pathlib import Path
 
         from sim import genrun
@@ -271,7 +275,18 @@ class Pkg:
         with open(docpath, "w") as f:
             json.dump(doc, f)
         cfgpath = genrun.write_config(sandbox, {"post_hooks": [], **cfg})
-        self.gen = genrun.run_cli(["generate", "--path", docpath, "--config", cfgpath, "--meta", "none", "--output-path", os.path.join(parent, PKG)])
+        src = ["--path", docpath]
+        around = None
+        if channel:
+            # the document comes from a (simulated) document server: what it says ABOUT the bytes (content type, charset
+            # label - truthful or not; JSON is UTF-8 whatever the label says, RFC 8259) must not change what they mean
+            from sim.docserver import doc_url_channel
+
+            with open(docpath, "rb") as f:
+                body = f.read()
+            src = ["--url", "http://docs.sim/openapi.json"]
+            around = lambda: doc_url_channel(body, channel.get("content_type"), None, [])  # noqa: E731
+        self.gen = genrun.run_cli(["generate", *src, "--config", cfgpath, "--meta", "none", "--output-path", os.path.join(parent, PKG)], around=around)
         self.ok = self.gen["exception"] is None and os.path.isdir(os.path.join(parent, PKG)) and not any(
             d["level"] == "ERROR" for d in self.gen["diagnostics"] or [])
         self.index: dict[str, dict] = {}
@@ -331,7 +346,7 @@ class World:
         inst.CLASS_OVERRIDES.clear()
         inst.CLASS_OVERRIDES.update(self.cfg.get("class_overrides") or {})
         self.ops = {o["operationId"]: o for o in rm.operations(self.doc) if o["operationId"]}
-        self.pkg = Pkg(self.doc, self.cfg, sandbox)
+        self.pkg = Pkg(self.doc, self.cfg, sandbox, spec.get("doc_channel"))
         self.server = apiserver.Server()
         self.apiserver = apiserver
         self.viol: list[dict] = []
@@ -945,6 +960,10 @@ def shrink_candidates(spec: dict) -> list[dict]:
             s = copy.deepcopy(spec)
             s["sessions"][si]["client"] = simple
             out.append(s)
+    if spec.get("doc_channel"):
+        s = copy.deepcopy(spec)
+        s.pop("doc_channel")
+        out.append(s)
     if any(v is True for v in (spec.get("config") or {}).values()):
         s = copy.deepcopy(spec)
         s["config"] = {k: (False if isinstance(v, bool) else v) for k, v in spec["config"].items()}
